@@ -249,6 +249,18 @@ def run(ctx):
     ok = len(ifs) == 1 and len(sets) == 1 and ifs[0]["line"] < sets[0]["line"] and hir.find_calls(ifs[0]["then"]) is not None \
         and any(x.get("k") == "Ret" for x in hir.walk(ifs[0]["then"]))
     ctx.ob("N-INTERVAL", "parse_atom returns the placeholder before the name is applied", bool(ok), "")
+    # ... but only after the characters that follow the prefix have been consumed (`_1`, `_slot` are the placeholder, nothing is left over)
+    body = strip(pa["body"])
+
+    def top_index(node):
+        for i, st in enumerate(body["stmts"] + ([{"k": "Expr", "expr": body["expr"]}] if body.get("expr") else [])):
+            if any(n is node for n in hir.walk(st)):
+                return i
+        return None
+    scans = [n for n in hir.walk(pa["body"]) if n.get("k") == "Loop" and hir.find_calls(n, "head_step_one")]
+    okscan = len(scans) == 1 and len(ifs) == 1 and top_index(scans[0]) is not None and top_index(ifs[0]) is not None and top_index(scans[0]) < top_index(ifs[0])
+    ctx.ob("N-INTERVAL", "parse_atom consumes the name characters before it returns the placeholder", bool(okscan),
+           "the placeholder return must follow the name-scanning loop, else `_x` leaves `x` in the input to be read as another term")
     ctx.ob("N-INTERVAL", "parse_atom applies the scanned name through set_atom_name", len(sets) == 1 and field_path(sets[0]["args"][0]) == ("name_buffer",), "")
 
     # the sugar equations quantify over all operand terms: a derived copula must still be the copula that is read when the subject's
